@@ -8,7 +8,7 @@
 (* operators of the specification and judges every recorded result.       *)
 (*  {"ev":"stat","t":..,params..,"n":..,"stat":{..},"entries":[{..}]}     *)
 (***************************************************************************)
-EXTENDS Integers, Sequences, FiniteSets, TLC, Json, SequencesExt, FreqTests, RunTests, CorrTests, AlgTests
+EXTENDS Integers, Sequences, FiniteSets, TLC, Json, SequencesExt, FreqTests, RunTests, CorrTests, AlgTests, Spectral
 
 Trace == ndJsonDeserialize("trace.ndjson")
 VARIABLE l
@@ -39,6 +39,7 @@ Expected(e) ==
     [] e.t = "rank"  -> RankPQFromRanks(e.M, s.N, s.ranks)
     [] e.t = "lc"    -> LCPQFromLs(e.m, s.N, s.Ls)
     [] e.t = "maurer" -> MaurerPQ(s.K, s.dist)
+    [] e.t = "dft"   -> DftPQ(n, s.lo)
 
 \* structural sanity of the summary itself (cheap consistency the proxy must satisfy)
 StatSane(e) ==
@@ -64,7 +65,11 @@ Step == /\ l <= Len(Trace)
              /\ e.ev = "stat"
              /\ Len(e.entries) >= 1
              /\ StatSane(e)
-             /\ LET exp == Expected(e) IN \A i \in 1..Len(e.entries) : EntryOK(e.entries[i], exp, e.t = "serial")
+             /\ IF e.t = "dft"
+                  \* bins within 1e-9 of the threshold may count either way: some admissible N1 explains every entry
+                  THEN /\ e.stat.lo >= 0 /\ e.stat.amb >= 0 /\ e.stat.lo + e.stat.amb <= e.n
+                       /\ \E a \in 0..e.stat.amb : LET exp == DftPQ(e.n, e.stat.lo + a) IN \A i \in 1..Len(e.entries) : EntryOK(e.entries[i], exp, FALSE)
+                  ELSE LET exp == Expected(e) IN \A i \in 1..Len(e.entries) : EntryOK(e.entries[i], exp, e.t = "serial")
         /\ l' = l + 1
 Spec == Init /\ [][Step]_l
 Accepted == TLCGet("stats").diameter - 1 = Len(Trace)
